@@ -1438,7 +1438,13 @@ impl Analyzable for TxDef {
             scope.track_param_var(&param.name.value, param.r#type.clone());
         }
 
-        for _ in 0..9 {
+        // each pass resolves one more link of a chain of locals, inputs and outputs that
+        // refer to each other, and a chain can't be longer than the number of artifacts
+        let links = self.locals.as_ref().map_or(0, |x| x.assigns.len())
+            + self.inputs.len()
+            + self.outputs.len();
+
+        for _ in 0..links.max(9) {
             scope = self.best_effort_analyze_circular_dependencies(scope);
         }
 
